@@ -118,6 +118,36 @@ func Gen(seeds []Seed, L int, bitflips, thorough bool, emit func(g string, in []
 				}
 			}
 		}
+		// a length-prefixed part resized CONSISTENTLY: the prefix says n and exactly n bytes of the
+		// part follow (cut, or padded with zero bytes), then the rest of the message: the message still
+		// parses as a whole and the short / long part reaches the code behind the parser
+		for _, f := range s.Fields {
+			if f.Off+f.Width > len(m) {
+				continue
+			}
+			tv := fieldValue(m, f)
+			if f.Width > 2 {
+				continue
+			}
+			start := f.Off + f.Width
+			if tv == 0 || uint64(start)+tv > uint64(len(m)) {
+				continue
+			}
+			content, rest := m[start:start+int(tv)], m[start+int(tv):]
+			for _, n := range []uint64{0, 1, 2, 15, 16, 17, 31, 32, 33, 47, 48, 49, 63, 64, 65, tv - 1, tv + 1, tv + 16} {
+				if n == tv || (f.Width == 1 && n > 255) || n > 65535 {
+					continue
+				}
+				part := make([]byte, n)
+				copy(part, content)
+				pre := []byte{byte(n)}
+				if f.Width == 2 {
+					pre = []byte{byte(n >> 8), byte(n)}
+				}
+				out := append(append(append(append([]byte{}, m[:f.Off]...), pre...), part...), rest...)
+				emit("resized-part", out)
+			}
+		}
 		npos := len(m)
 		if npos > 600 {
 			npos = 600
